@@ -154,6 +154,34 @@ def import_chain_cases(acc, probe, rng, count):
                 acc.nontriv("chain-ns", tuple(sorted(files.items())))
                 acc.cover("import_chain_shapes", "*/ns-reexport/levels=3")
             continue
+        if rng.random() < 0.2:
+            # one import statement that brings one symbol under two names (its own and an alias), inside a scope, while the
+            # enclosing scope has a symbol with the plain name too: both names mean the imported routine
+            name = rng.choice(["setcol", "putc", "wipe"]) + str(rng.randrange(10))
+            alias = rng.choice(["border", "out", "clr"]) + str(rng.randrange(10))
+            order = rng.choice([(name, "%s as %s" % (name, alias)), ("%s as %s" % (name, alias), name)])
+            lib = "%s: {\n    inc $d020\n    rts\n}\n" % name
+            uses = "    jsr %s\n    jsr %s\n    lda #<%s\n    rts\n" % (name, alias, rng.choice([name, alias]))
+            files = {"lib.asm": lib, "main.asm": "%s: nop\nstart: {\n.import %s, %s from \"lib.asm\"\n%s}\n" % (name, order[0], order[1], uses)}
+            flat = "%s: nop\nstart: {\n{\n%s}\n%s}\n" % (name, lib.replace(name + ":", "inner_zz:"), uses.replace(alias, "inner_zz").replace(name, "inner_zz"))
+            # (the flat program spells both names as the one routine; the imported code sits in a scope of its own at the import site)
+            flat = "%s: nop\nstart: {\ninner_zz: {\n    inc $d020\n    rts\n}\n%s}\n" % (name, uses.replace(alias, "inner_zz").replace(name, "inner_zz"))
+            info = {"how": "two-names-one-symbol", "alias": alias, "levels": 2}
+            acc.evaluations += 1
+            o0 = outcome(probe.ask({"files": files, "ops": OPS, "opts": {"pc": 0x2000}}))
+            o1 = outcome(probe.ask({"files": {"main.asm": flat}, "ops": OPS, "opts": {"pc": 0x2000}}))
+            w = {"kinds": ["import-chain"], "P": files, "expanded": {"main.asm": flat}, "base_pc": 0x2000, "chain": info}
+            if o1[0] != "ok":
+                acc.inconc("flattened two-name import does not assemble: %r" % (o1[1],))
+            elif o0[0] != "ok":
+                acc.violation("P-rejected|import-chain|two-names-one-symbol", "the import is rejected (%s) although the same code in one file assembles" % (o0[1],), w)
+            elif "".join(v[1] for v in o0[1].values()) != "".join(v[1] for v in o1[1].values()):
+                acc.violation("bytes-differ|import-chain|two-names-one-symbol", "import under two names and single file assemble differently", w)
+            else:
+                acc.count("import_chains_equal")
+                acc.nontriv("chain-2names", tuple(sorted(files.items())))
+                acc.cover("import_chain_shapes", "two-names-one-symbol")
+            continue
         files, _sites, info = c15.chain_project(rng)
         lib, mid = files["lib.asm"], files["mid.asm"]
         mid_body = mid.split("\n", 1)[1]
